@@ -4,6 +4,7 @@ Same transition system as C02; every (initial workers, max workers) configuratio
 interleaving, no depth bound.
 -/
 import Vegeta.Proofs.AttackInv
+import Vegeta.Extracted.Facts
 import Vegeta.Proofs.AttackAcceptSound
 namespace Vegeta.Props.C03
 open Vegeta.Model.Attack Vegeta.Proofs.Attack
@@ -185,5 +186,19 @@ example : (run (init 0 1 0) [.paceWait 0, .wake]).map (fun s => (s.pc, inFlight 
 
 example : (run (init 1 1 0) [.ready, .paceWait 0, .wake, .tick, .paceWait 0, .wake]).map
     (fun s => (s.pc, inFlight s, s.maxW)) = some (.blockSend, 1, 1) := by decide
+
+/-! #### source facts (binding): the clamp and the growth guard -/
+
+/-- Before the first worker starts, `workers` is the configured initial count clamped to max-workers
+(`workers := a.workers`; `if workers > a.maxWorkers { workers = a.maxWorkers }`) — `init`'s
+`if workers > maxW then maxW else workers` — and nothing else touches it or the WaitGroup there. -/
+theorem facts_attack_initial_clamp : Vegeta.Extracted.attackWorkersPrelude =
+    [[119, 111, 114, 107, 101, 114, 115, 32, 58, 61, 32, 97, 46, 119, 111, 114, 107, 101, 114, 115],
+     [105, 102, 32, 119, 111, 114, 107, 101, 114, 115, 32, 62, 32, 97, 46, 109, 97, 120, 87, 111, 114, 107, 101, 114, 115, 32, 123, 32, 119, 111, 114, 107, 101, 114, 115, 32, 61, 32, 97, 46, 109, 97, 120, 87, 111, 114, 107, 101, 114, 115, 32, 125]] := by decide
+
+/-- The pool grows only under `workers < a.maxWorkers` (`workers < maxWorkers`), the guard of the model's
+`trySend`/`spawn`. -/
+theorem facts_attack_spawn_guard : Vegeta.Extracted.attackSpawnGuard =
+    [119, 111, 114, 107, 101, 114, 115, 32, 60, 32, 109, 97, 120, 87, 111, 114, 107, 101, 114, 115] := by decide
 
 end Vegeta.Props.C03
